@@ -7,7 +7,7 @@ import sys
 from collections import defaultdict
 
 from ..cli import C, find_config_dir, load_rules_or_exit, _check_deprecated_description_cleaning, _print_deprecation_warnings
-from ..config_loader import load_config
+from ..config_loader import load_config, load_supplemental_sources
 from ..merchant_utils import get_all_rules, get_transforms
 from ..analyzer import parse_amex, parse_boa, parse_generic_csv
 
@@ -62,7 +62,13 @@ def cmd_discover(args):
     # Parse transactions from configured data sources
     all_txns = []
 
+    # Supplemental sources are query-only: rules can read them, they are not transactions
+    supplemental_data = load_supplemental_sources(config, config_dir)
+
     for source in data_sources:
+        if source.get('_supplemental', False):
+            continue
+
         filepath = os.path.join(config_dir, '..', source['file'])
         filepath = os.path.normpath(filepath)
 
@@ -88,7 +94,8 @@ def cmd_discover(args):
                 txns = parse_generic_csv(filepath, format_spec, rules,
                                          source_name=source.get('name', 'CSV'),
                                          decimal_separator=source.get('decimal_separator', '.'),
-                                         transforms=transforms)
+                                         transforms=transforms,
+                                         data_sources=supplemental_data)
             else:
                 continue
         except Exception:
